@@ -151,6 +151,7 @@ def run(ck, ctx):
                    ["Result::Err(ParseErr::new(str'expected immediate value', clone(arg2))) ; [discr(arg1 as Some.0) in [%d,%d] & discr(arg1) in [1,1]] => Result::Ok(IntLiteral(arg1 as Some.0 as Unsigned.0)) ; "
                     "[discr(arg1 as Some.0) in [%d,%d] & discr(arg1) in [1,1]] => Result::Ok(IntLiteral((arg1 as Some.0 as Signed.0 as u16)))" % (u, u, s_, s_)],
                    ".fill accepts either signedness and keeps the 16-bit pattern", file="src/parse.rs")
+    ck.include("C03", ctx, "C05.6", {"C03.1", "C03.2"}, "a value reaches its field only through the arm of its mnemonic: operand kinds per mnemonic, NOP's optional operand look-ahead")
     ck.assume("str::parse::<u16|i16|u8> and {u16,i16}::from_str_radix accept exactly the canonical digit strings in range (std; a leading '+' cannot occur because no token pattern admits it)")
     ck.assume("Offset::new accepts exactly the values representable in N bits of its signedness: C35")
     ck.assume("logos picks Reg over Ident for R followed by digits and the numeric kinds over Ident (priority/longest match, pinned by the crate's lexer tests)")
